@@ -471,8 +471,53 @@ class Engine:
             return self._is_static_address(d.ops[0], depth + 1)
         return False
 
+    def _same_pure(self, a, b, depth=0):
+        """two values are the same pure expression (same register / constant, or the same operation on same operands)"""
+        if a.kind != b.kind:
+            return False
+        if a.kind == "int":
+            return a.v == b.v
+        if a.kind == "null":
+            return True
+        if a.kind != "reg":
+            return False
+        if a.v == b.v:
+            return True
+        if depth > 4:
+            return False
+        da, db = self.fn.defs.get(a.v), self.fn.defs.get(b.v)
+        if da is None or db is None or da.op != db.op or da.op not in ("and", "or", "xor", "icmp", "zext", "sext", "trunc", "add", "sub"):
+            return False
+        if da.op == "icmp" and da.x["pred"] != db.x["pred"]:
+            return False
+        return len(da.ops) == len(db.ops) and all(self._same_pure(x, y, depth + 1) for x, y in zip(da.ops, db.ops))
+
+    def _contradicts_acquisition(self, res, c, taken):
+        """the edge (condition c, direction taken) cannot be followed by a run that performed the acquisition: a condition that
+        dominates the acquiring instruction is the same pure comparison with the opposite outcome"""
+        if res.acq is None:
+            return False
+        dom = getattr(res, "_dom_conds", None)
+        if dom is None:
+            from .flow import dominating_conditions
+            dom = [(cm, tr) for cm, tr in dominating_conditions(self.fn, res.acq.block) if getattr(cm, "op", None) == "icmp" and isinstance(tr, bool)]
+            res._dom_conds = dom
+        if not dom:
+            return False
+        from .flow import _flatten_cond
+        for cm, tr in _flatten_cond(self.fn, c, taken):
+            if getattr(cm, "op", None) != "icmp":
+                continue
+            for dm, dt in dom:
+                if dm.x["pred"] == cm.x["pred"] and all(self._same_pure(x, y) for x, y in zip(dm.ops, cm.ops)) and dt != tr:
+                    return True
+        return False
+
     def _refine_cond(self, res, c, taken, st, depth):
         fn = self.fn
+        if depth == 0 and c.kind == "reg" and self._contradicts_acquisition(res, c, taken):
+            # the resource exists only on runs where this very test had the other outcome
+            return frozenset(t for t in st if (t if isinstance(t, str) else t[0]) not in ("O", "F", "P", "M"))
         if c.kind == "int":
             return st if bool(c.v) == taken else frozenset()
         if c.kind != "reg" or depth > 4:
